@@ -72,7 +72,7 @@ def _rows(dump_file):
 def c29(c):
     quick = c.tier == 'quick'
     cfg = 'quick.cfg' if quick else 'thorough.cfg'
-    r = c.tlc_exhaustive('WsReader', 'WsReader', cfg, dump=True, timeout=2400, heap=None if quick else '24g',
+    r = c.tlc_exhaustive('WsReader', 'WsReader', cfg, dump=True, timeout=2400,
                          workers=int(os.environ.get('VERIF_TLC_WORKERS') or 8))
     rows = _rows(r['dump_file'])
     if 2 * len(rows) != r['distinct']:
